@@ -33,7 +33,7 @@ def scripts(rng, tier, n=None):
         ssrc = rng.randrange(2, 1 << 32)
         p, ext_p = strat_policy(rng, k, ssrc=ssrc, valid=True)
         if k % 10 == 4:
-            p.rtp = p.rtp[:5] + (3,)           # cryptex is defined for streams with confidentiality
+            p.rtp = p.rtp[:5] + ((3, 2)[(k // 10) % 2],)      # cryptex is defined for streams with confidentiality; without it the policy flag must change nothing
         # a third of the scripts use wildcard policies on both sides: the streams that do the work are clones of
         # the template (srtp_stream_clone copies services, keys, MKI setting, window size), several SSRCs
         wild = rng.random() < 0.35 and k % 10 != 5
